@@ -193,6 +193,10 @@ CLI_LAYOUTS = [
     ({"a.mac": SRC}, ".", ["a.mac", "-o-.bin"], {"<stdout>": ("bin", None)}),
     ({"a.mac": SRC}, ".", ["a.mac", "-o-.raw"], {"<stdout>": ("raw", None)}),
     ({"a.mac": SRC + "make_bin \"m.bin\"\n"}, ".", ["a.mac", "-o", "-"], {"<stdout>": ("raw", None), "m.bin": ("bin", None)}),
+    # diagnostics must not end up in the image: a warning is printed while the image goes to standard output
+    ({"a.mac": SRC + "\t.byte\n"}, ".", ["a.mac", "-o", "-", "--report-format", "bare"], {"<stdout>": ("raw", None)}, "", IMG + b"\x00"),
+    ({"a.mac": SRC + "\t.byte\n"}, ".", ["a.mac", "-o", "-", "--report-format", "graphical"], {"<stdout>": ("raw", None)}, "", IMG + b"\x00"),
+    ({"a.mac": SRC + "\t.byte\n\tclr @r0\n"}, ".", ["a.mac", "-o-.bin", "--report-format", "bare", "-Wall"], {"<stdout>": ("bin", None)}, "", IMG + b"\x00\x08\x0a"),
     ({"keep": ""}, ".", ["-", "-o", "out.bin"], {"out.bin": ("bin", None)}, SRC),
     ({"keep": ""}, ".", ["-", "-o-.bin"], {"<stdout>": ("bin", None)}, SRC),
     ({"keep": ""}, ".", ["-", "--implicit-bin"], {"stdin.bin": ("bin", None)}, SRC),
